@@ -60,6 +60,8 @@ async def check_orders(ctx, case):
     rng = ctx.case_rng(case)
     ctx.set_case("orders", case)
     ctx.count("expressions")
+    if s.count("[9P") >= 2:
+        ctx.count("expressions_with_a_repeated_package")
     baseline = await sched.run_under(None, lambda: pipeline(s, make_world(case)))
     ctx.evaluation()
     if baseline[0] != "ok":
@@ -259,13 +261,30 @@ def gen_case(rng):
 
     table = {}
     parts = GA.gen_parts(rng, cond, max_parts=3, p_bare=0.0, p_prefix=0.2)
-    new_parts = []
+    # one package used at SEVERAL places (every occurrence is a look-up of its own, possibly still pending when the next one starts)
+    repeated = None
+    if rng.random() < 0.3:
+        sub = G.gen_valid(rng, rng.randint(0, 1), pools, max_leaves=3, invalid_pred=logic.structurally_invalid)
+        if G.has_rc(sub):
+            repeated = sub
+            table["9P"] = G.render(sub, rng, EXACT)
+    new_parts, plain_parts = [], []
     for ind, c in parts:
+        plain_c = c
         free = [n for n in PKG_NAMES if n not in table]
         if c is not None and rng.random() < 0.6 and free:
             c, t = abbreviate(c, rng, max_packages=2, names=free)
             table.update(t)
+        if c is not None and repeated is not None and rng.random() < 0.8:
+            op = rng.choice(["and", "or", "xor"]) if G.has_rc(plain_c) else "and"
+            twice = rng.random() < 0.5
+            c = [op, ["and", ["pkg", "9P", None], c], ["pkg", "9P", "0..1"]] if twice else [op, c, ["pkg", "9P", None]]
+            plain_c = [op, ["and", repeated, plain_c], repeated] if twice else [op, plain_c, repeated]
         new_parts.append([ind, c])
+        plain_parts.append([ind, plain_c])
+    if repeated is not None and not any(leaf[0] == "pkg" and leaf[1] == "9P" for _i, c in new_parts if c is not None for leaf in G.leaves(c)):
+        table.pop("9P", None)
+    parts = plain_parts
     s = GA.render_parts(new_parts, rng, style=EXACT)
     plain = GA.render_parts(parts, rng, style=EXACT)
     rc_keys, fc_keys = set(), set()
